@@ -567,7 +567,7 @@ func (r *rewriter) pre(c *astutil.Cursor) bool {
 		}
 	case *ast.CallExpr:
 		r.rewriteCall(c, n)
-		if op := r.callOp(n); strings.HasPrefix(op, "spawn?:") {
+		if op := r.callOp(n); strings.HasPrefix(op, "spawn?:") || op == "time.AfterFunc" {
 			for _, a := range n.Args {
 				if fl, ok := ast.Unparen(a).(*ast.FuncLit); ok && !(len(fl.Body.List) > 0 && isSimrtStmt(fl.Body.List[0])) {
 					s := r.site(fl.Body.Lbrace, "gostart?")
@@ -575,6 +575,24 @@ func (r *rewriter) pre(c *astutil.Cursor) bool {
 					inv.GoStarts = append(inv.GoStarts, s)
 					r.changed = true
 				}
+			}
+			// every function value handed over is wrapped, so that a goroutine it is started on
+			// later gets an identity derived from this call (simrt.Spawned)
+			for i, a := range n.Args {
+				_, lit := ast.Unparen(a).(*ast.FuncLit)
+				if !lit {
+					t := r.info.TypeOf(a)
+					if t == nil {
+						continue
+					}
+					if _, ok := t.Underlying().(*types.Signature); !ok {
+						continue
+					}
+				}
+				s := r.site(a.Pos(), "spawned")
+				n.Args[i] = simrtCall("Spawned", strLit(s), a)
+				inv.GoStarts = append(inv.GoStarts, s)
+				r.changed = true
 			}
 		}
 	}
